@@ -3,7 +3,7 @@ from common import *
 import numlib
 
 PID = "C07"
-TARGETS = ["Run.vo", "Conv_proofs.vo", "Float_proofs.vo"]
+TARGETS = ["Run.vo", "Conv_proofs.vo", "Float_proofs.vo", "NonVacuous/C07.vo"]
 IMPORTS = "From VF Require Import Base Show Gen_Errors Lexer Conv Run."
 import vlib
 ALLOWED_AXIOMS = sorted(vlib.FLOCQ_AXIOMS)      # Flocq real-number development: the four standard-library axioms (DESIGN 4)
